@@ -8,7 +8,7 @@ from ..land import _rep
 
 LEVEL = 'exploration'
 ENGINE = 'SEQ'
-TECHNIQUE = 'exhaustive product of targets x argument shapes x return values (None, falsy, nested, custom class, 0 B .. 4 MiB crossing the pipe buffers) x exceptions x {thread, process, remote} x {constructor, Worker.create} x run flags, each executed on a real worker and compared with the direct call'
+TECHNIQUE = 'exhaustive product of targets x argument shapes x return values (None, falsy, nested, custom class, 0 B .. 4 MiB crossing the pipe buffers) x exceptions x {thread, process, remote} x {constructor, Worker.create} x run flags x {timed, untimed, polling} wait, each executed on a real worker and compared with the direct call'
 LEVEL_TEXT = ('the full product is enumerated (no sampling); the reference is the direct call in the checker; after wait() has_error/result/error must match it (exception type and args), not-run workers are dead at once with (False, None, None) and never call the target, the target is entered exactly once, and the three kinds agree')
 LEVEL_NOTE = 'values are compared through a structural representation (bytes by length); definitions in the main script are covered by a separate script run as __main__ (3 modes x 3 kinds); wait() is given 20 s'
 
